@@ -50,7 +50,7 @@ def gen_cases(ctx):
         if j < 4:  # independent pair
             alpha = rng.choice([gen.TINY, gen.TINY, (6, 1, 8)])
             nn = rng.randint(1, 7)
-            a = gen.random_pg(rng, cls, n_range=(nn, nn), alphabet=alpha, p_stereo=0.7, allow_isolated=rng.random() < 0.2)
+            a = gen.random_pg(rng, cls, n_range=(nn, nn), alphabet=alpha, p_stereo=0.7, allow_isolated=rng.random() < 0.2, attrs=rng.random() < 0.25)  # (further attributes - labels, charges, bond orders - play no part in ==)
             how = rng.random()
             if how < 0.35:
                 b = sem.pg_relabel(a, gen.random_bijection(rng, a))
